@@ -34,3 +34,8 @@ def run(F, X, rep):
     # lifecycle has no way to recover from it: D7), nor into `nothing pending` while a part is alive
     import rules_provider as P
     P.v_wait_payment(C, rep, "C09-V")
+    # a lifecycle that cannot take the table lock never answers and never removes its entry: nothing may block while the
+    # lock is held (replayed HTLCs that all request failure would wedge the plugin again after every restart)
+    import rules_hh as H
+    if H.need_hh(C, rep, "C09-B"):
+        H.p6_no_blocking_under_lock(C, rep, "C09-B")
